@@ -349,6 +349,8 @@ class Response:
         header_str = "%s\r\n" % "".join(tosend)
         util.write(self.sock, util.to_bytestring(header_str, "latin-1"))
         self.headers_sent = True
+        # lets Worker.handle_error() know that it is too late for an error page
+        self.req.response_started = True
 
     def write(self, arg):
         self.send_headers()
